@@ -976,3 +976,84 @@ func (l *Loop) EarlyExits() []*ssa.BasicBlock {
 	sort.Slice(out, func(i, j int) bool { return out[i].Index < out[j].Index })
 	return out
 }
+
+// RetVal is one value a function may return in result position idx, with the
+// instruction at which that choice is made (the return itself, the store into
+// a named result, or the terminator of the phi's predecessor).
+type RetVal struct {
+	V  ssa.Value
+	At ssa.Instruction
+}
+
+// ReturnValues enumerates the values that can be returned in position idx,
+// looking through named results (spilled by defer) and phis.
+func ReturnValues(fn *ssa.Function, idx int) []RetVal {
+	var out []RetVal
+	seenAlloc := map[*ssa.Alloc]bool{}
+	var addVal func(v ssa.Value, at ssa.Instruction, depth int)
+	addVal = func(v ssa.Value, at ssa.Instruction, depth int) {
+		if depth > 6 {
+			out = append(out, RetVal{v, at})
+			return
+		}
+		switch x := v.(type) {
+		case *ssa.UnOp:
+			if x.Op == token.MUL {
+				if a, ok := x.X.(*ssa.Alloc); ok {
+					if seenAlloc[a] {
+						return
+					}
+					seenAlloc[a] = true
+					n := 0
+					for _, ref := range *a.Referrers() {
+						if st, ok := ref.(*ssa.Store); ok && st.Addr == ssa.Value(a) {
+							n++
+							addVal(st.Val, st, depth+1)
+						}
+					}
+					if n == 0 {
+						// zero value of the named result
+						out = append(out, RetVal{ssa.NewConst(nil, a.Type().(*types.Pointer).Elem()), at})
+					}
+					return
+				}
+			}
+		case *ssa.Phi:
+			for i, e := range x.Edges {
+				pred := x.Block().Preds[i]
+				addVal(e, pred.Instrs[len(pred.Instrs)-1], depth+1)
+			}
+			return
+		}
+		out = append(out, RetVal{v, at})
+	}
+	for _, ret := range Returns(fn) {
+		if idx < len(ret.Results) {
+			addVal(ret.Results[idx], ret, 0)
+		}
+	}
+	return out
+}
+
+// IsBoolConst reports whether v is the boolean constant b.
+func IsBoolConst(v ssa.Value, b bool) bool {
+	c, ok := v.(*ssa.Const)
+	return ok && c.Value != nil && c.Value.Kind() == constant.Bool && constant.BoolVal(c.Value) == b
+}
+
+// BlocksReachableFrom returns the blocks reachable from b (including b).
+func BlocksReachableFrom(b *ssa.BasicBlock) map[*ssa.BasicBlock]bool {
+	seen := map[*ssa.BasicBlock]bool{b: true}
+	stack := []*ssa.BasicBlock{b}
+	for len(stack) > 0 {
+		x := stack[len(stack)-1]
+		stack = stack[:len(stack)-1]
+		for _, s := range x.Succs {
+			if !seen[s] {
+				seen[s] = true
+				stack = append(stack, s)
+			}
+		}
+	}
+	return seen
+}
